@@ -91,6 +91,11 @@ type Config struct {
 	MaxPoints int64
 	Quantum   int64
 	Trace     bool
+	// environment seams (simulated clock, CPU count, package-level randomness)
+	TickNs     int64   // clock advance per executed preemption point
+	ClockJumps []int64 // consumed one per scheduling point (clock skew / jumps forward)
+	NumCPU     int
+	RandSeed   uint64
 }
 
 // Stats are counted per run (probes and fault-kind counters).
@@ -119,6 +124,8 @@ type Stats struct {
 	MapOps         int64
 	Spawned        int64
 	QuantumYields  int64
+	ClockReads     int64
+	RandDraws      int64
 }
 
 type abortPanic struct{ why string }
@@ -141,6 +148,7 @@ type Sim struct {
 	PreemptAt []int    // point ids at which preemptions fired
 	OnFault   bool
 	runBuf    [maxTasks]*Task
+	jumpPos   int
 }
 
 // S is the active simulation (nil: calm mode, library code runs unscheduled).
@@ -346,6 +354,9 @@ func (s *Sim) start() {
 		p.reset()
 	}
 	S = s
+	if s.cfg.RandSeed != 0 {
+		randState = s.cfg.RandSeed
+	}
 	for _, t := range s.tasks {
 		go t.main(s)
 	}
@@ -506,6 +517,7 @@ func SchedPoint(kind byte, obj int) {
 	}
 	t := s.cur
 	s.St.SchedPoints++
+	clockJump(s)
 	t.sinceSP = 0
 	s.sig(t.ID, kind, obj)
 	next := s.pickNext(t)
@@ -528,6 +540,7 @@ func Point(id int) {
 	}
 	s.St.Points++
 	t.Points++
+	simClock += s.cfg.TickNs
 	if s.PointHit != nil && id < len(s.PointHit) {
 		s.PointHit[id]++
 	}
@@ -1260,3 +1273,89 @@ func WaitUntil(list *WaitList, cond func() bool) {
 
 //go:norace
 func WakeAll(list *WaitList) { list.wakeAll() }
+
+// ---------------------------------------------------------------- environment seams
+
+// The simulated clock survives between runs (it never goes back), as a wall
+// clock would; calm-mode reads see its latest value.
+var simClock int64
+var clockJumpPos int
+var randState uint64 = 0x9e3779b97f4a7c15
+var lastNumCPU = 4
+
+//go:norace
+func ClockRead() int64 {
+	s := S
+	if s != nil && s.cur != nil && s.cur.quiet == 0 && !s.aborting {
+		s.St.ClockReads++
+	}
+	return simClock
+}
+
+//go:norace
+func clockTick(s *Sim) { simClock += s.cfg.TickNs }
+
+//go:norace
+func clockJump(s *Sim) {
+	if s.jumpPos < len(s.cfg.ClockJumps) {
+		simClock += s.cfg.ClockJumps[s.jumpPos]
+		s.jumpPos++
+	}
+}
+
+// ClockSleep advances the clock and yields.
+//
+//go:norace
+func ClockSleep(d int64) {
+	if d > 0 {
+		simClock += d
+	}
+	SyncPoint('s', 0)
+}
+
+//go:norace
+func NumCPU() int {
+	if S != nil && S.cfg.NumCPU > 0 {
+		lastNumCPU = S.cfg.NumCPU
+	}
+	return lastNumCPU
+}
+
+//go:norace
+func NumTasks() int {
+	if S == nil {
+		return 1
+	}
+	n := 0
+	for _, t := range S.tasks {
+		if t.state != tsDone {
+			n++
+		}
+	}
+	return n
+}
+
+// GCClear is runtime.GC() for the simulation: the pools are emptied.
+//
+//go:norace
+func GCClear() {
+	if S != nil && !S.aborting {
+		S.clearPools()
+		SyncPoint('c', 0)
+	}
+}
+
+//go:norace
+func RandSeed(v uint64) { randState = v }
+
+//go:norace
+func RandNext() uint64 {
+	if S != nil && S.cur != nil && !S.aborting {
+		S.St.RandDraws++
+	}
+	randState += 0x9e3779b97f4a7c15
+	z := randState
+	z = (z ^ (z >> 30)) * 0xbf58476d1ce4e5b9
+	z = (z ^ (z >> 27)) * 0x94d049bb133111eb
+	return z ^ (z >> 31)
+}
